@@ -289,3 +289,43 @@ theorem grid_closest (N N' D q : Nat) (h : 2 * absDiff (N * D) q ≤ D) :
     omega
 
 end GojaModel.C12
+
+namespace GojaModel.C12
+
+theorem lowerOK_true_mono {n d n' d' k : Nat} (hd : 0 < d) (hd' : 0 < d')
+    (hle : n * d' ≤ n' * d) (h : lowerOK n d k = true) : lowerOK n' d' k = true := by
+  cases hh : lowerOK n' d' k with
+  | true => rfl
+  | false =>
+    have := lowerOK_false_mono hd' hd hle hh
+    rw [this] at h; cases h
+
+theorem upperOK_true_mono {n d n' d' k : Nat} (hd : 0 < d) (hd' : 0 < d')
+    (hle : n' * d ≤ n * d') (h : upperOK n d k = true) : upperOK n' d' k = true := by
+  cases hh : upperOK n' d' k with
+  | true => rfl
+  | false =>
+    have := upperOK_false_mono hd' hd hle hh
+    rw [this] at h; cases h
+
+theorem roundsTo_iff {s : Nat} {c : Int} {o : Nat} :
+    roundsTo s c o = true ↔
+      o ≤ infOrd ∧ lowerOK (decNum s c) (decDen c) o = true ∧ upperOK (decNum s c) (decDen c) o = true := by
+  simp only [roundsTo, isNearestMag, Bool.and_eq_true, decide_eq_true_eq]
+  constructor
+  · rintro ⟨⟨⟨_, h2⟩, h3⟩, h4⟩; exact ⟨h2, h3, h4⟩
+  · rintro ⟨h2, h3, h4⟩; exact ⟨⟨⟨decDen_pos c, h2⟩, h3⟩, h4⟩
+
+/-- The rounding interval is convex along a fixed decimal exponent. -/
+theorem roundsTo_between {a m b : Nat} {c : Int} {o : Nat} (h1 : a ≤ m) (h2 : m ≤ b)
+    (ha : roundsTo a c o = true) (hb : roundsTo b c o = true) : roundsTo m c o = true := by
+  rw [roundsTo_iff] at ha hb ⊢
+  refine ⟨ha.1, ?_, ?_⟩
+  · apply lowerOK_true_mono (decDen_pos c) (decDen_pos c) _ ha.2.1
+    unfold decNum
+    exact Nat.mul_le_mul_right _ (Nat.mul_le_mul_right _ h1)
+  · apply upperOK_true_mono (decDen_pos c) (decDen_pos c) _ hb.2.2
+    unfold decNum
+    exact Nat.mul_le_mul_right _ (Nat.mul_le_mul_right _ h2)
+
+end GojaModel.C12
